@@ -222,11 +222,15 @@ func wtScenario(kind int, r *rand.Rand, salt uint64) (string, string) {
 		if n > 0 {
 			pl = strings.Join(ps, ",")
 		}
-		rec.add("cb/%d/0/%s", c, pl)
+		rec.add("cb/%d/1/%s", c, pl) // mayFail: the pool's metadata discovery can fail (refresh deadline = RebalanceInterval)
 		go func() {
 			defer close(d)
 			err := w.WriteMessages(ctx, km...)
-			rec.add("cr/%d/%s", c, classify(err))
+			cl := classify(err)
+			if cl == "ctx" && ctx.Err() == nil {
+				cl = "other" // a deadline of the transport's own metadata discovery, not the caller's context
+			}
+			rec.add("cr/%d/%s", c, cl)
 		}()
 		return c
 	}
